@@ -131,14 +131,14 @@ Qed.
 
 (* ---- update_slice ---- *)
 Lemma update_slice_last d : forall s t,
-  t + 1 = total d -> update_slice d (key_at d s t) t = None.
+  t + 1 = total d -> update_slice d (key_at d s t) t = (key_at d s t, false).
 Proof.
   destruct d as [|d]; intros s t Ht; [reflexivity|].
   cbn [update_slice]. assert (E : (t + 1 =? total (S d)) = true) by lia. rewrite E. reflexivity.
 Qed.
 
 Lemma update_slice_step d : forall s t,
-  0 <= t -> t + 1 < total d -> update_slice d (key_at d s t) t = Some (key_at d s (t + 1)).
+  0 <= t -> t + 1 < total d -> update_slice d (key_at d s t) t = (key_at d s (t + 1), true).
 Proof.
   induction d as [|d IH]; intros s t H0 Ht.
   - unfold total in Ht. cbn in Ht. lia.
@@ -168,6 +168,28 @@ Proof.
       rewrite (firstn_exact _ _ _ Hk), (skipn_exact _ _ _ Hk).
       rewrite (IH (R s) (t - total d)) by lia.
       replace (t + 1 - total d) with (t - total d + 1) by lia. reflexivity.
+Qed.
+
+(* a refused update_slice leaves the slice exactly as it was — for ANY slice and period *)
+Lemma update_slice_err_unchanged d : forall ks p ks',
+  update_slice d ks p = (ks', false) -> ks' = ks.
+Proof.
+  induction d as [|d IH]; intros ks p ks' H; cbn [update_slice] in H.
+  - injection H as <-. reflexivity.
+  - destruct (p + 1 =? total (S d)); [injection H as <-; reflexivity|].
+    destruct (p + 1 ?= half (S d)).
+    + destruct (keygen_slice d _ None) as [[sub ?] ?]. discriminate.
+    + destruct (update_slice d (firstn (ksize d) ks) p) as [sub ok] eqn:E.
+      injection H as <- ->. rewrite (IH _ _ _ E). apply firstn_skipn.
+    + destruct (update_slice d (firstn (ksize d) ks) (p - half (S d))) as [sub ok] eqn:E.
+      injection H as <- ->. rewrite (IH _ _ _ E). apply firstn_skipn.
+Qed.
+
+Lemma update_err_unchanged d k k' : update d k = (k', false) -> k' = k.
+Proof.
+  destruct k as [b p]. cbn [update]. destruct (update_slice d b p) as [b' ok] eqn:E.
+  destruct ok; [discriminate|]. intros H. injection H as <-.
+  rewrite (update_slice_err_unchanged _ _ _ _ E). reflexivity.
 Qed.
 
 (* ---- the key object ---- *)
